@@ -358,13 +358,34 @@ def cut_loop(text, toks, L, fname, spec, uid):
     for o, sz in spec.get('slices', []):
         hv.append('if ((%s) > 0) __CPROVER_havoc_slice((void*)(%s), (%s));' % (sz, o, sz))
     A = lambda c, what: '__CPROVER_assert(%s, "%s %s");' % (c, spec.get('props', ''), tag + '.' + what)
+    # The custom havoc's range restriction is an assumption about which head states exist.  It is turned into an OBLIGATION: the same
+    # condition, with each fresh parameter replaced by its inverse (spec 'havoc_inv': {'V_d': '(p - base)'}), must hold of the entry state
+    # and of the state after one iteration - otherwise head states (typically the loop's normal exit state) would be silently cut off.
+    cover = []
+    if spec.get('havoc'):
+        fresh = re.findall(r'\blong\s+(V_\w+)\s*=\s*nondet_long\s*\(\s*\)', spec['havoc'])
+        hinv = spec.get('havoc_inv', {})
+        for m in re.finditer(r'__CPROVER_assume\s*\(', spec['havoc']):
+            j = m.end(); depth = 1
+            while depth:
+                depth += {'(': 1, ')': -1}.get(spec['havoc'][j], 0); j += 1
+            c = spec['havoc'][m.end():j - 1]
+            for v in fresh:
+                if re.search(r'\b%s\b' % v, c):
+                    if v not in hinv:
+                        raise WeaveError('%s: custom havoc restricts fresh parameter %s but the spec gives no havoc_inv for it' % (tag, v))
+                    c = re.sub(r'\b%s\b' % v, '(%s)' % hinv[v], c)
+            cover.append(c)
     back = []
     back.append(A(inv, 'step: invariant preserved'))
+    for c in cover:
+        back.append(A(c, 'step: havoc range covers the state after one iteration'))
     if dec:
         back.append(A('0 <= (long)(%s) && (long)(%s) < V_dec0_%s' % (dec, dec, uid), 'decreases: variant strictly decreases and is bounded below'))
     back.append('__CPROVER_assume(0);')
     pre = [spec.get('snap', ''),
            A(inv, 'base: invariant holds on entry'),
+           ' '.join(A(c, 'base: havoc range covers the entry state') for c in cover),
            ' '.join(hv),
            '__CPROVER_assume(%s);' % inv]
     if dec:
